@@ -411,8 +411,8 @@ class DiffRHS(object):
     def set_jac_base_order(self, order):
         if self.__jac_is_wrapped_rhs:
             self.__jac_wrapped_rhs_order = order
-            self.__jac = deutil.JacobianWrapper(lambda y, **kwargs: self.rhs(0.0, y, **kwargs),
-                                                base_order=self.__jac_wrapped_rhs_order, flat=True)
+            self.__jac = deutil.JacobianWrapper(lambda y, **kwargs: self(0.0, y, **kwargs),
+                                                base_order=self.__jac_wrapped_rhs_order, flat=False)
             self.__jac_time = 0.0
 
     def __str__(self):
